@@ -37,18 +37,26 @@ MANIFEST = dict(
           "included (assemble_total); for any solver output passing the MB/MH/MH2O/CB gate inventory(after) = "
           "inventory(before) + reaction within the tolerance (partition_conserves); incremental step amounts add up to "
           "the cumulative amount (stepAmount_incremental_sum, stepAmount_list_prefix, stepAmount_list_cumulative); mixing totals are sum f_j*totals_j "
-          "and permutation invariant (mix_linear, mix_perm). CORRESPONDENCE (every run, against /repo's working tree): "
+          "and permutation invariant (mix_linear, mix_perm); solution_check moves every master total by at most MIN_TOTAL and "
+          "flags MASS_BALANCE exactly for a total below -MIN_TOTAL (solutionCheck_small, solutionCheck_flag). CORRESPONDENCE (every run, against /repo's working tree): "
           "(a) parser model vs real get_elts_in_species/compute_gfw on every species/phase formula of all shipped "
           "databases + generated formulas; (b) stepAmount/kinStep vs add_reaction/Current_step on generated blocks; "
           "(c) DIRECT ORACLE on real runs: DUMP -all before/after every simulation of generated histories, parsed "
           "independently, inventories and reaction increment computed by the proved model in exact rationals, judged "
           "at 1e-6 relative per element, H, O, charge; negative reactant amounts; (d) dumps vs USER_PUNCH "
-          "SYS/TOTMOLE/EQUI/GAS/KIN/S_S/SURF/EDL at every step."),
+          "SYS/TOTMOLE/EQUI/GAS/KIN/S_S/SURF/EDL at every step; (e) DRIVEN STEPS: the loop of reactions() driven from the "
+          "harness on the real set_use/copy_use/step/run_reactions/saver: after every step the totals step() leaves for the "
+          "solver (total_h_x, total_o_x, cb_x, every master total, moles left in every pure phase / solid-solution "
+          "component, MASS_BALANCE return) are compared exactly with the model's assemble + solutionCheck, and the dump of "
+          "the -2 entities after saver() is judged for conservation - every intermediate step of multi-step simulations."),
     note=("Trusted: Lean kernel, harness/ph_inventory.cpp (friend access), tools/rawparse.py, tools/dbparse.py, the "
           "transport of numbers (decimal text -> Rat). Partial: that the numerical solver reaches the gate and keeps "
           "amounts non-negative is layer N: checked by exploration on real runs, not proved. Runs ending with an ERROR "
-          "are counted, not judged. Intermediate steps of a multi-step simulation are judged through SYS() of the "
-          "engine (cross-check d), the final state of every simulation through the dumps. The charge inventory is judged "
+          "are counted, not judged. Intermediate steps are judged on dumps in the driven runs (e) and through SYS() in the RunString runs (d); "
+          "in (e) the reactions() loop itself is emulated by the harness (its step counting is tied by (b) and by the "
+          "final states of (c)). `partition` is tied through (e)'s dumps only (the solver's species sums are not read). Site "
+          "elements of exchangers/surfaces related to a phase or kinetic reactant are not judged (they appear and vanish "
+          "with it by design). The charge inventory is judged "
           "relative to max(|charge|, ionic strength * kg water) (the engine's own scale for the CB row); element "
           "inventories below 1e-18 mol are not judged (the engine zeroes totals below 1e-25 by design)."),
 )
@@ -57,6 +65,7 @@ DBDIR = vlib.REPO / "database"
 TOL = "1e-6"
 FLOOR = "1e-18"
 RUN_TIMEOUT = 40
+SOLUTION_ELEMENTS = {"Na", "K", "Ca", "Mg", "Cl", "S", "C", "Si", "Sr", "Ba", "Fe", "Al", "N", "Li", "Mn", "F", "Br", "P", "B", "Zn", "Cd", "Pb", "Cu"}
 KEY_CD = "cd_music-species-without-charge-distribution"
 KEY_NEG = "negative-total-recovery-with-kinetics"
 KEY_ABS = "absent-phase-element-drift"
@@ -163,7 +172,7 @@ class Missing(Exception):
     pass
 
 
-def cell_lines(cid, ents, sol, use, phases, extra, neg):
+def cell_lines(cid, ents, sol, use, phases, extra, neg, rel=None):
     """model description of the cell made of the entities `use` {kind: number} and the solution/mix `sol`;
     `neg` collects negative reactant amounts seen while reading"""
     L = ["cell " + cid]
@@ -195,6 +204,9 @@ def cell_lines(cid, ents, sol, use, phases, extra, neg):
         for o in e["opts"]:
             if o["key"] == "component":
                 L.append("xcomp %s %s %s" % (cid, val(o["opts"], "charge_balance"), pairs(rows(o["opts"], "totals"))))
+                if rel is not None and (val(o["opts"], "phase_name", "") or val(o["opts"], "rate_name", "")):
+                    # sites tied to a phase / kinetic reactant appear and vanish with it by design: the site element is not judged
+                    rel |= {e for e in _formula_elements(o["args"][0]) if e not in ("H", "O") and e not in SOLUTION_ELEMENTS}
                 for r in rows(o["opts"], "totals"):
                     if float(r[1]) < 0:
                         neg.append(("exchange %s %s" % (o["args"][0], r[0]), r[1]))
@@ -204,6 +216,8 @@ def cell_lines(cid, ents, sol, use, phases, extra, neg):
         for o in e["opts"]:
             if o["key"] == "component":
                 L.append("scomp %s %s %s" % (cid, val(o["opts"], "charge_balance"), pairs(rows(o["opts"], "totals"))))
+                if rel is not None and (val(o["opts"], "phase_name", "") or val(o["opts"], "rate_name", "")):
+                    rel.add(val(o["opts"], "master_element", ""))
                 for r in rows(o["opts"], "totals"):
                     if float(r[1]) < 0:
                         neg.append(("surface %s %s" % (o["args"][0], r[0]), r[1]))
@@ -300,8 +314,9 @@ def judge_history(ctx, h, res, pm):
         before, after = dumps[s - 1], dumps[s]
         neg = []
         try:
+            rel = set()
             Lb, mu_b = cell_lines("b", before, plan["sol"], {k: v for k, v in plan["use"].items() if k != "reaction"},
-                                  phases, extra, [])
+                                  phases, extra, [], rel)
             sv = dict(plan["save"])
             Lc, mu_a = cell_lines("a", after, ("solution", sv["solution"]), {k: v for k, v in sv.items() if k != "solution"},
                                   phases, extra, neg)
@@ -370,35 +385,13 @@ def judge_history(ctx, h, res, pm):
             break
         out["judged"] += 1
         out["steps"] += nsteps
-        excluded = set()                       # elements of this simulation attributed to a known finding ("*" = all)
-        if cd_music_inconsistent(before, plan["use"].get("surface")) or cd_music_inconsistent(after, plan["save"].get("surface")):
-            # known finding: plane charges of a CD_MUSIC surface do not add up to the charge of its species
-            cbad = [b for b in bad if b["element"] == "Charge"]
-            bad = [b for b in bad if b["element"] != "Charge"]
-            if cbad:
-                out.setdefault("findings", []).append((KEY_CD, "simulation %d: %s" % (s, json.dumps(cbad[0])), s))
-        if bad and "kinetics" in plan["use"] and "Recovering..." in runs[s]["warn"]:
-            # same known finding: step() returned MASS_BALANCE ("Negative moles in solution ... Recovering...") under the
-            # kinetics driver and the call still returned no error
-            out.setdefault("findings", []).append((KEY_NEG, "simulation %d: MASS_BALANCE recovery under KINETICS; %s"
-                                                   % (s, json.dumps(bad[:3])), s))
-            bad = []
-            excluded.add("*")
-        if bad and "equilibrium_phases" in plan["use"]:
-            # small drift (< 1e-8 mol) of an element that belongs to a pure phase which is absent before and after the step
-            absent = set()
-            eb = before.get(("EQUILIBRIUM_PHASES_RAW", plan["use"]["equilibrium_phases"]))
-            ea = after.get(("EQUILIBRIUM_PHASES_RAW", plan["save"].get("equilibrium_phases")))
-            mb = {o["args"][0]: float(val(o["opts"], "moles")) for o in (eb["opts"] if eb else []) if o["key"] == "component"}
-            ma = {o["args"][0]: float(val(o["opts"], "moles")) for o in (ea["opts"] if ea else []) if o["key"] == "component"}
-            for nm in mb:
-                if mb[nm] == 0.0 and ma.get(nm, 1.0) == 0.0:
-                    absent |= set(_formula_elements(formula_of(nm, phases, extra)))
-            drift = [b for b in bad if b["element"] in absent and b["element"] not in ("H", "O") and abs(b["diff"]) < 1e-8]
-            if drift:
-                out.setdefault("findings", []).append((KEY_ABS, "simulation %d: %s" % (s, json.dumps(drift[:3])), s))
-                bad = [b for b in bad if b not in drift]
-                excluded |= {b["element"] for b in drift}
+        if rel:
+            out["related_sites"] = out.get("related_sites", 0) + len([b for b in bad if b["element"] in rel])
+            bad = [b for b in bad if b["element"] not in rel]
+        bad, fnd, excluded = attribute(bad, before, after, plan["use"], plan["save"], runs[s]["warn"], phases, extra, "simulation %d" % s)
+        excluded |= rel
+        for f in fnd:
+            out.setdefault("findings", []).append(f + (s,))
         if bad:
             out["problems"].append(("conservation", "simulation %d (%d steps): %s" % (s, nsteps, json.dumps(bad[:4])), s))
         if neg:
@@ -492,6 +485,205 @@ def _formula_elements(f):
     if f not in _FE:
         _FE[f] = {k: Fraction(v).limit_denominator(10**9) for k, v in dbparse.formula_elements(f).items()}
     return _FE[f]
+
+
+def attribute(bad, before, after, use, save, warn, phases, extra, where):
+    """split the imbalances of one step/simulation into those explained exactly by a listed known finding and the rest;
+    returns (remaining, [(key, text)], excluded elements ("*" = all))"""
+    fnd, excluded = [], set()
+    if cd_music_inconsistent(before, use.get("surface")) or cd_music_inconsistent(after, save.get("surface")):
+        # known finding: plane charges of a CD_MUSIC surface do not add up to the charge of its species
+        cbad = [b for b in bad if b["element"] == "Charge"]
+        bad = [b for b in bad if b["element"] != "Charge"]
+        if cbad:
+            fnd.append((KEY_CD, "%s: %s" % (where, json.dumps(cbad[0]))))
+    if bad and "kinetics" in use and "Recovering..." in warn:
+        # known finding: step() returned MASS_BALANCE ("Negative moles in solution ... Recovering...") under the kinetics
+        # driver and the call still returned no error
+        fnd.append((KEY_NEG, "%s: MASS_BALANCE recovery under KINETICS; %s" % (where, json.dumps(bad[:3]))))
+        bad = []
+        excluded.add("*")
+    if bad and "equilibrium_phases" in use:
+        # small drift (< 1e-8 mol) of an element that belongs to a pure phase which is absent before and after the step
+        absent = set()
+        eb = before.get(("EQUILIBRIUM_PHASES_RAW", use["equilibrium_phases"]))
+        ea = after.get(("EQUILIBRIUM_PHASES_RAW", save.get("equilibrium_phases")))
+        mb = {o["args"][0]: float(val(o["opts"], "moles")) for o in (eb["opts"] if eb else []) if o["key"] == "component"}
+        ma = {o["args"][0]: float(val(o["opts"], "moles")) for o in (ea["opts"] if ea else []) if o["key"] == "component"}
+        for nm in mb:
+            if mb[nm] == 0.0 and ma.get(nm, 1.0) == 0.0:
+                absent |= set(_formula_elements(formula_of(nm, phases, extra)))
+        drift = [b for b in bad if b["element"] in absent and b["element"] not in ("H", "O") and abs(b["diff"]) < 1e-8]
+        if drift:
+            fnd.append((KEY_ABS, "%s: %s" % (where, json.dumps(drift[:3]))))
+            bad = [b for b in bad if b not in drift]
+            excluded |= {b["element"] for b in drift}
+    return bad, fnd, excluded
+
+
+# ----------------------------------------------------------------------------------------------- driven steps (friend access)
+KINDS_USE = ["exchange", "surface", "gas_phase", "equilibrium_phases", "solid_solutions", "kinetics"]
+
+
+def drive_history(exe, h):
+    """sims[0] through RunString, then the first planned simulation through the harness' `drive` (per-step observation)"""
+    plan = h["plan"][0]
+    args = ["%s %d" % (plan["sol"][0], plan["sol"][1])]
+    for k, n in plan["use"].items():
+        args.append("%s %d" % (k, n))
+    ops = ["db " + hx(str(DBDIR / h["db"])), "run " + hx(h["sims"][0]),
+           "drive %d 0 %s" % (1 if h["incremental"] else 0, " ".join(args))]
+    try:
+        rc, out, err = run_ops(exe, ops, timeout=RUN_TIMEOUT)
+    except Exception as e:
+        return {"timeout": str(e)[:100]}
+    res = {"A": {}, "B": {}, "end": None, "rc": rc}
+    for ln in out:
+        w = ln.split(" ")
+        if w[0] == "run":
+            res["run0"] = dict(rc=int(w[1]), err=unhx(w[2]), dump=unhx(w[3]))
+        elif w[0] == "A":
+            res["A"][int(w[1])] = w[2:]
+        elif w[0] == "B":
+            res["B"][int(w[1])] = unhx(w[2])
+        elif w[0] == "drive":
+            res["end"] = w[1:]
+    if rc != 0 and res["end"] is None:
+        res["crash"] = "harness exit %s: %s" % (rc, err[-200:])
+    return res
+
+
+def judge_drive(ctx, h, res, pm):
+    """per step of one driven simulation: (1) the totals step() leaves for the solver = model `assemble` (exact tie),
+    (2) conservation judged on the dump of the -2 entities after saver()"""
+    out = {"steps": 0, "assemble_cmp": 0, "elements": 0, "problems": [], "findings": [], "errors": 0, "worst": 0.0, "massbalance": 0}
+    if "timeout" in res:
+        out["timeouts"] = 1
+        return out
+    if "crash" in res:
+        out["crash"] = res["crash"]
+        return out
+    if res.get("run0", {}).get("rc", 1) != 0 or not res["B"] or 0 not in res["B"]:
+        out["errors"] = 1
+        return out
+    phases = dbinfo(h["db"])
+    extra = h.get("extra_phases", {})
+    plan = h["plan"][0]
+    inc = h["incremental"]
+    base = ent_map(res["run0"]["dump"])
+    use2 = {k: -2 for k in plan["use"] if k != "reaction"}
+    nsteps_run = max([k for k in res["B"]])
+    ended = res["end"] and res["end"][0] == "end"
+    warn = unhx(res["end"][1]) if ended and len(res["end"]) > 1 else ""
+    b0 = dict(base)
+    b0.update(ent_map(res["B"][0]))
+    # count_steps as the engine's loops compute it, from the dumped definitions
+    want = 1
+    if "reaction" in plan["use"] and ("REACTION_RAW", -2) in b0:
+        want = max(want, reaction_lines(b0[("REACTION_RAW", -2)], phases, extra)[1])
+    if "kinetics" in plan["use"] and ("KINETICS_RAW", -2) in b0:
+        want = max(want, kin_steps(b0[("KINETICS_RAW", -2)]))
+    if ended and nsteps_run != want:
+        out["problems"].append(("step-count", "engine ran %d steps, the definitions give %d" % (nsteps_run, want), 1))
+    prev = b0
+    for k in sorted(res["A"]):
+        before = b0 if (not inc or k == 1) else prev
+        sol = (("mix", -2) if plan["sol"][0] == "mix" else ("solution", -2)) if (not inc or k == 1) else ("solution", -2)
+        A = res["A"][k]
+        try:
+            rel = set()
+            Lb, mu_b = cell_lines("b", before, sol, use2, phases, extra, [], rel)
+        except Missing as e:
+            out["problems"].append(("drive-missing", "step %d: %s" % (k, e), 1))
+            break
+        L = list(Lb)
+        if "reaction" in plan["use"] and ("REACTION_RAW", -2) in b0:
+            L += reaction_lines(b0[("REACTION_RAW", -2)], phases, extra)[0]
+        else:
+            L.append("norxn")
+        sect, cur = {"t": [], "pp": [], "ss": [], "kt": []}, "t"
+        for tok in A[1:]:
+            if tok == "|":
+                continue
+            if tok in ("pp", "ss", "kt"):
+                cur = tok
+                continue
+            sect[cur].append(tok)
+        kt = " ".join("%s:%r" % (t.split(":")[0], dbl(t.split(":")[1])) for t in sect["kt"])
+        L.append("kintotals " + kt)
+        L.append("assemble b %d %d" % (1 if inc else 0, k))
+        have_after = k in res["B"]
+        if have_after:
+            after = dict(prev)
+            after.update(ent_map(res["B"][k]))
+            neg = []
+            try:
+                La, mu_a = cell_lines("a", after, ("solution", -2), use2, phases, extra, neg)
+            except Missing as e:
+                out["problems"].append(("drive-missing", "step %d after: %s" % (k, e), 1))
+                break
+            L += La
+            L.append("judgestep b a %d %d %s %r %s" % (1 if inc else 0, k, TOL, max(mu_b, mu_a), FLOOR))
+        lines = pm("inventory", "\n".join(L) + "\n")
+        # (1) assemble tie
+        T = next(l for l in lines if l.startswith("T "))
+        P = next(l for l in lines if l.startswith("P"))
+        S = next(l for l in lines if l.startswith("S"))
+        tw = T.split(" ")
+        mod = {unhx(p.split(":")[0]): frac(p.split(":")[1]) for p in tw[2:]}
+        eng = {unhx(t.split(":")[0]): dbl(t.split(":")[1]) for t in sect["t"]}
+        rc_step = int(A[0])
+        mbal = tw[1] == "1"
+        if mbal != (rc_step == 3):
+            out["problems"].append(("assemble", "step %d: step() returned %d, model MASS_BALANCE=%s" % (k, rc_step, mbal), 1))
+        if rc_step == 3:
+            out["massbalance"] += 1
+        else:
+            for el in sorted(set(mod) | set(eng)):
+                a_, b_ = float(mod.get(el, 0)), eng.get(el, 0.0)
+                out["assemble_cmp"] += 1
+                if abs(a_ - b_) > 1e-11 * max(abs(a_), abs(b_)) + 1e-24:
+                    out["problems"].append(("assemble", "step %d: total of %s handed to the solver: engine %.17g model %.17g" % (k, el, b_, a_), 1))
+            for name, line, toks in (("pure phase", P, sect["pp"]), ("solid-solution component", S, sect["ss"])):
+                mm = [float(frac(x)) for x in line.split(" ")[1:]]
+                ee = [dbl(t.split(":")[1]) for t in toks]
+                if len(mm) != len(ee):
+                    out["problems"].append(("assemble", "step %d: %d %ss in the engine, %d in the model" % (k, len(ee), name, len(mm)), 1))
+                for t, x, y in zip(toks, mm, ee):
+                    out["assemble_cmp"] += 1
+                    if abs(x - y) > 1e-11 * max(abs(x), abs(y)) + 1e-24:
+                        out["problems"].append(("assemble", "step %d: moles of %s %s after step(): engine %.17g model %.17g"
+                                                % (k, name, unhx(t.split(":")[0]), y, x), 1))
+        # (2) conservation of this step on the dumps
+        if have_after:
+            bad = []
+            for ln in lines:
+                w = ln.split(" ")
+                if w[0] == "J":
+                    out["elements"] += 1
+                    vb, vd, va, diff, scale = (dbl(x) for x in w[2:7])
+                    if w[7] == "0":
+                        bad.append(dict(element=unhx(w[1]), before=vb, added=vd, after=va, diff=diff, scale=scale,
+                                        rel=abs(diff) / scale if scale else None))
+                    elif w[7] == "1" and scale > 0:
+                        out["worst"] = max(out["worst"], abs(diff) / scale)
+            out["steps"] += 1
+            bad = [b for b in bad if b["element"] not in rel]
+            bad, fnd, _ = attribute(bad, before, after, use2, use2, warn, phases, extra, "driven step %d" % k)
+            out["findings"] += [f + (1,) for f in fnd]
+            if bad and "kinetics" in use2 and any(b["before"] + b["added"] < -1e-15 for b in bad):
+                out["findings"].append((KEY_NEG, "driven step %d: reaction removes more than the cell holds; %s" % (k, json.dumps(bad[:3])), 1))
+                bad = []
+            if bad:
+                out["problems"].append(("step-conservation", "step %d of %d: %s" % (k, want, json.dumps(bad[:4])), 1))
+            if neg:
+                out["problems"].append(("negative", "step %d: negative amounts %s" % (k, neg[:4]), 1))
+            prev = after
+        else:
+            break
+    if not ended:
+        out["errors"] = 1
+    return out
 
 
 def cd_music_inconsistent(ents, n):
@@ -817,12 +1009,41 @@ def run(ctx):
             forced = list(gen.KINDS)                         # and all together
         hs.append(gen.history(ctx.rng, forced))
     hs.append(gen.known_cd_music_history())                  # deterministic reproduction of the known finding
-    tags = {}
     seen_findings = set()
+    tags = {}
     stats = dict(histories=0, simulations_judged=0, steps=0, element_checks=0, runs_with_errors=0, crosschecks=0, trace_not_judged=0,
                  histories_with_problems=0, worst_rel=0.0)
     with cf.ThreadPoolExecutor(max_workers=max(2, vlib.NCPU - 2)) as ex:
         results = list(ex.map(lambda h: run_history(exe, h), hs))
+        driven = list(ex.map(lambda h: drive_history(exe, h), hs))
+    dstats = dict(histories_driven=0, steps_judged=0, assemble_comparisons=0, element_checks=0, mass_balance_returns=0,
+                  errors=0, timeouts=0, problems=0, worst_rel=0.0)
+    for h, res in zip(hs, driven):
+        if "known:" in " ".join(h["tags"]):
+            continue
+        j = judge_drive(ctx, h, res, ctx.pmodel)
+        dstats["histories_driven"] += 1
+        dstats["steps_judged"] += j["steps"]
+        dstats["assemble_comparisons"] += j["assemble_cmp"]
+        dstats["element_checks"] += j["elements"]
+        dstats["mass_balance_returns"] += j["massbalance"]
+        dstats["errors"] += j["errors"]
+        dstats["timeouts"] += j.get("timeouts", 0)
+        dstats["worst_rel"] = max(dstats["worst_rel"], j["worst"])
+        for key, what, sim in j["findings"]:
+            if key not in seen_findings:
+                seen_findings.add(key)
+                ctx.finding(key, what, {"replay": {"kind": "drive", "history": h}})
+        if j["problems"]:
+            dstats["problems"] += 1
+            if len(ctx.violations) < 5:
+                kind, what, _ = j["problems"][0]
+                ctx.violation("%s (driven steps: friend access to step()/saver()): %s" % (kind, what[:1500]),
+                              {"replay": {"kind": "drive", "history": dict(h, sims=h["sims"][:1], plan=h["plan"][:1])}})
+    ctx.cov["driven_steps"] = dstats
+    ctx.log("driven steps: %s" % dstats)
+    evaluations += dstats["assemble_comparisons"] + dstats["element_checks"]
+    nontrivial += dstats["assemble_comparisons"]
     for h, res in zip(hs, results):
         j = judge_history(ctx, h, res, ctx.pmodel)
         stats["histories"] += 1
@@ -878,7 +1099,15 @@ def replay(ctx, data):
     ctx.build_lib()
     exe = ctx.build_harness("ph_inventory")
     rp = data.get("replay", data)
-    if rp.get("kind") == "history":
+    if rp.get("kind") == "drive":
+        h = rp["history"]
+        j = judge_drive(ctx, h, drive_history(exe, h), ctx.pmodel)
+        ctx.log("replay (driven): %s" % {k: v for k, v in j.items() if k not in ("problems", "findings")})
+        for key, what, sim in j["findings"]:
+            ctx.finding(key, what, {"replay": rp})
+        for kind, what, _ in j["problems"][:1]:
+            ctx.violation("%s: %s" % (kind, what[:1500]), {"replay": rp})
+    elif rp.get("kind") == "history":
         h = rp["history"]
         res, j = check_history(ctx, exe, h)
         ctx.log("replay: judged %d simulations, %d runs with errors, problems: %s" % (j["judged"], j["errors"], j["problems"]))
